@@ -50,6 +50,11 @@ Definition listing_prod (p : N) : bool :=
                      P_index_roots; P_alldocs; P_corpus; P_inventory].
 Definition root_prod (p : N) : bool := N.eqb p P_module_index || N.eqb p P_index_roots.
 
+(* producers whose targets are picked from the contents of a written page object, from system.rootobjects, or by
+   recursion through contents: reachable by construction *)
+Definition contents_prod (p : N) : bool :=
+  existsb (N.eqb p) [P_main_table; P_pkginit; P_module_index; P_index_roots; P_inventory].
+
 (* producers whose href is not built by linker.taglink *)
 Definition raw_prod (p : N) : bool := existsb (N.eqb p) [P_hierarchy; P_childlist; P_alldocs; P_corpus; P_inventory].
 
